@@ -176,6 +176,9 @@ structure Cfg where
   flavour : Flavour
   scope : String → Scope        -- REST mapper: kind ↦ scope
   force : Bool                  -- PKO_FORCE_ADOPTION
+  -- REST mapper, per pass: kinds whose lookup is answered with an error that is NOT NoMatch
+  -- (API discovery degraded).  The scope the API server enforces (`scope`) is unaffected.
+  mapErr : String → Bool := fun _ => false
 
 /-- namespace of the desired object after `desiredObject`'s defaulting. -/
 def desiredNs (ow : Owner) (p : PObj) : String := if p.ns = "" then ow.ns else p.ns
@@ -209,8 +212,11 @@ irrelevant for an object that is going to be deleted. -/
 def dryActive (cfg : Cfg) (inPhase : Bool) : Bool := cfg.flavour.dryRun && inPhase
 
 def preflightObj (cfg : Cfg) (ow : Owner) (phaseClass : String) (inPhase : Bool) (p : PObj) : PF :=
+  -- APIExistence does its RESTMapper lookup FIRST: any error but NoMatch is returned as it is
+  -- (`default: return nil, err`) — no sub-checker, NamespaceEscalation included, is consulted
+  if cfg.mapErr p.kind then .error
   -- APIExistence: unknown API ⇒ violation, sub-checkers not run
-  if cfg.scope p.kind = .unknown then .violation
+  else if cfg.scope p.kind = .unknown then .violation
   -- preflight.List runs every checker; an error from DryRun aborts
   else if dryActive cfg inPhase && p.dryRun = .error then .error
   else if vOwner cfg inPhase p || vNs cfg ow phaseClass inPhase p || (dryActive cfg inPhase && p.dryRun = .reject) then .violation
